@@ -89,12 +89,12 @@ CHECKS = {
  "C14": dict(
    category="model_checking",
    text="PcapFile.tla gives the framing of classic pcap and pcapng as functions (header, record, block and option lengths with padding and end-of-options) and the truncation law ReadPrefix(file, cut); PcapFileGen.tla enumerates record sequences (<= 3 packets, capture lengths incl. 0 and non-multiples of 4, micro/nano writer, boundary timestamps, 1-2 interfaces, option strings of length 0..5, per-packet options) and checks an ideal block-by-block reader against the law at every offset; every scenario is written by the real writers, its size and every block boundary compared with the model, read back with copying and zero-copy calls and through libpcap, and re-read from EVERY byte prefix; TLC validates each observation (exactly the packets wholly inside the prefix, unaltered, then EOF or unexpected EOF).",
-   design_ref="4/C14", technique="TLA+ framing functions and truncation law + TLC scenario enumeration + replay with exhaustive truncation + TLC trace validation",
+   design_ref="4/C14", technique="TLA+ framing functions and truncation law + TLC scenario enumeration + replay with exhaustive truncation + TLC trace validation; thorough: implementation-shaped TLA+ transcription of the pcapng reader (NgReaderImpl.tla) model-checked against the property specs and replayed on the real NgReader with drift comparison",
    note="A crash is modelled as a prefix of the flushed byte stream; the pcapng writer's resolution is fixed at ns; if_tsoffset handling of NgWriter is a recorded known finding."),
  "C15": dict(
    category="exploration",
    text="The layout map of PcapFile.tla makes every field of every block header, option and record enumerable; NgReaderGen.tla lets TLC enumerate (base file, field locator, value class) corruptions for pcap, pcapng and snoop and stream chunkings, with an ideal reader; each corruption is applied to a really written file (also gzip-wrapped) and read to the end in child processes under an address-space cap through whole / 1-byte / TLC-chosen chunkings and with injected I/O errors; NgReader.tla accepts iff no panic/hang/abort, datalen = caplen <= len, per-call allocation within c0 + c1*(bytes present + snaplen), identical results for all chunkings, and injected errors surfacing as errors; seeded random corruptions on the same map complete the space.",
-   design_ref="4/C15", technique="TLC-enumerated corruptions over a TLA+ layout map + replay in capped child processes + TLC trace validation of the reader envelope",
+   design_ref="4/C15", technique="TLC-enumerated corruptions over a TLA+ layout map + replay in capped child processes + TLC trace validation of the reader envelope; thorough: implementation-shaped TLA+ transcription of the pcapng reader (NgReaderImpl.tla) model-checked against the property specs and replayed on the real NgReader with drift comparison",
    note="Allocation bound constants c0 = 1 MiB, c1 = 8; gzip streams are checked for the envelope only."),
  "C05": dict(
    category="model_checking",
